@@ -313,7 +313,7 @@ impl Prop for C04 {
         vec!["K = 64 (DESIGN.md §3.3) is the harness's reading of 'a small multiple of 2^-53 times the magnitudes of the intermediate terms'".into()]
     }
     fn cases(&self, tier: Tier) -> u64 {
-        tier.pick(150_000, 2_000_000)
+        tier.pick(150_000, 800_000)
     }
     fn strategy(&self, tier: Tier) -> BoxedStrategy<Case> {
         knots_strategy(tier)
@@ -430,7 +430,7 @@ impl Prop for C05 {
         vec!["K = 64 as in C04".into()]
     }
     fn cases(&self, tier: Tier) -> u64 {
-        tier.pick(150_000, 2_000_000)
+        tier.pick(150_000, 800_000)
     }
     fn strategy(&self, tier: Tier) -> BoxedStrategy<Case> {
         knots_strategy(tier)
